@@ -87,6 +87,13 @@ func EmitPackage(s *Schema, name string, plugins []string, params map[string]str
 	for _, pl := range append([]string{"protoc-gen-go"}, plugins...) {
 		sc := *s
 		sc.Parameter = params[pl]
+		if pl == "protoc-gen-go" {
+			// the message types of every file of the request (imported ones too) are needed to build
+			sc.Generate = nil
+			for _, f := range s.Files {
+				sc.Generate = append(sc.Generate, fmt.Sprint(f["name"]))
+			}
+		}
 		req, err := t.MakeRequest(&sc)
 		if err != nil {
 			return "", nil, fmt.Errorf("schema rejected: %w", err)
